@@ -1010,7 +1010,7 @@ def gen_vor_header(R, max_points=7, caps=(None, None, 1, 1, 2, 3), span=9, defau
             + " ".join(f"t:{a},{b},{c}" for a, b, c in tris) + (f" s:{scale}" if scale != 1 else ""))
 
 
-RICH_CAPS = (None, None, 1, 1, 2, 3, 0)  # capacity 0 is falsy: `add_agent` never refuses, `is_full` means "empty"
+RICH_CAPS = (None, None, None, 1, 1, 1, 2, 2, 3, 3, 0)  # capacity 0 (SC3): the cell refuses everybody and is full from the start
 
 
 def gen_header(R, default_caps=False, rich=False, **kw):
@@ -1313,16 +1313,16 @@ def oracle_c06(sc, obs, reject_clause=True):
                 bad.append(f"mirror: after `{line}` agent {a} reports cell {c} but is listed in {where}")
         # capacity (per cell: a VoronoiGrid with the default capacity_function gives every cell its own)
         for n in names:
-            if capof[n] and len(occ[n]) > capof[n]:
+            if capof[n] is not None and len(occ[n]) > capof[n]:
                 bad.append(f"capacity: after `{line}` cell {n} holds {len(occ[n])} > {capof[n]}")
         # emptiness views
         truth = [n for n in names if not occ[n]]
         if d["empty"] != truth:
             bad.append(f"view-is_empty: after `{line}` is_empty cells {d['empty']} != {truth}")
-        # is_full: exactly the cells holding as many agents as their capacity (capacity 0 — a tiny Voronoi cell under the
-        # default capacity_function — is outside the property's quantifier and skipped)
-        tf = [n for n in names if capof[n] and len(occ[n]) == capof[n]]
-        if [n for n in d["full"] if capof[n] != 0] != tf:
+        # is_full: exactly the cells holding as many agents as their capacity (capacity 0 — e.g. a tiny Voronoi cell under the
+        # default capacity_function — is a capacity: such a cell is full from the start and never holds anybody, SC3)
+        tf = [n for n in names if capof[n] is not None and len(occ[n]) == capof[n]]
+        if d["full"] != tf:
             bad.append(f"view-is_full: after `{line}` is_full cells {d['full']} != {tf}")
         if h.kind == "grid":
             if d["layer"] != truth:
